@@ -458,6 +458,12 @@ func (x *descr) normParam(t schema.Type, field string, fv reflect.Value) (string
 			return "53", true
 		}
 	}
+	if x.d.name == "postgres" && field == "Len" && isType(t, "*postgres.BitType") && fv.Int() == 0 {
+		if tf := reflect.ValueOf(t).Elem().FieldByName("T"); strings.ToLower(tf.String()) == "bit" {
+			x.rule("pg-bit-len-default")
+			return "1", true
+		}
+	}
 	if field != "Precision" || fv.Kind() != reflect.Ptr || !fv.IsNil() {
 		return "", false
 	}
